@@ -32,7 +32,7 @@ def run(cx):
     if f:
         ys = cx.calls(f, r'dnssec::verify_nsec::\{closure@val#0\}$')
         sec = [s for s in ys if 'Proof::Secure' in s.term]
-        cx.check('C08.G1', len(sec) == 4, f.path, 'yields', 'secure-origin-count', f'{len(sec)} Secure yields, 4 reviewed: ' + '; '.join(s.loc for s in sec))
+        cx.check('C08.G1', len(sec) == 5, f.path, 'yields', 'secure-origin-count', f'{len(sec)} Secure yields, 5 reviewed: ' + '; '.join(s.loc for s in sec))
         common = {'rcode-supported': r'^eq:ResponseCode\(ResponseCode::(NoError|NXDomain),arg3\)$'}
         cx.guard('C08.G1', sec, common, fn=f)
         cx.guard('C08.G1', sec, {'soa-encloses-qname': r'^Name::zone_of\(arg2@Some\.0,arg1\.name\)$|^!ok\(arg2\)$'}, fn=f)
@@ -56,15 +56,34 @@ def run(cx):
             'wildcard-covered': rf'^ok\(dnssec::find_nsec_covering_record\(arg2,{WILD}@Ok\.0,arg5\)\)$',
             'rcode-NXDomain': r'^eq:ResponseCode\(ResponseCode::NXDomain,arg3\)$',
             'no-answer': r'^slice::is_empty\(arg4\)$'}, expect=1, fn=f)
-        wx = [s for s in sec if 'wildcard expansion response' in s.term]
+        # empty non-terminal NODATA (RFC 4035 3.1.3.1 / RFC 4592 2.2.2): no NSEC at the name, the covering NSEC's next name is
+        # strictly below the name
+        ent = [s for s in sec if 'empty non-terminal' in s.term]
+        NEXT = rf'NSEC::next_domain_name\({COVQ}@Some\.0\.1\)'
+        cx.guard('C08.G1', ent, {
+            'no-direct-match': rf'^!ok\({DIRECT}\)$',
+            'qname-covered': rf'^ok\({COVQ}\)$',
+            'next-name-below-qname': rf'^Name::zone_of\(arg1\.name,{NEXT}\)$',
+            'next-name-is-not-qname': rf'^!eq:Name\(arg1\.name,{NEXT}\)$|^!eq:Name\({NEXT},arg1\.name\)$',
+            'rcode-NoError': r'^eq:ResponseCode\(ResponseCode::NoError,arg3\)$',
+            'no-answer': r'^slice::is_empty\(arg4\)$'}, expect=1, fn=f)
+        # wildcard expansion (RFC 4035 5.3.4, RFC 4592 3.3.1): qname covered, and the closest encloser the covering NSEC shows is
+        # the parent of the wildcard named by a Secure RRSIG's labels field
+        wx = [s for s in sec if 'expanded wildcard' in s.term]
         cx.guard('C08.G1', wx, {
             'no-direct-match': rf'^!ok\({DIRECT}\)$',
             'qname-covered': rf'^ok\({COVQ}\)$',
-            'wildcard-name-covered': rf'^ok\(dnssec::find_nsec_covering_record\(arg2,{WILD}@Ok\.0,arg5\)\)$',
             'rcode-NoError': r'^eq:ResponseCode\(ResponseCode::NoError,arg3\)$',
             'have-answer': r'^!slice::is_empty\(arg4\)$',
-            'no-closer-matches': r'^dnssec::no_closer_matches\(arg1\.name,arg2,arg5,'}, expect=1, fn=f)
-        wn = [s for s in sec if s not in direct + nx + wx]
+            'closest-encloser-is-the-wildcard-parent': r'^Option::is_some_and\(phi\(Option::map\(Iterator::min_by_key\(Iterator::filter_map\(slice::iter\(arg4\),closure:dnssec::verify_nsec::\{closure@filter_map#0\}\),.*,closure:dnssec::verify_nsec::\{closure@is_some_and#0\}\)$'},
+            expect=1, fn=f)
+        ce = cx.fn('C08.G1', N + 'verify_nsec::{closure@is_some_and#0}')
+        if ce:
+            r_ = cx.returns(ce, r'.')
+            COVC = r'dnssec::find_nsec_covering_record\(\^arg2,\^arg1\.name,\^arg5\)'
+            cx.check('C08.G1', len(r_) == 1 and bool(re.fullmatch(rf'eq:Name\(dnssec::nsec_closest_encloser\(\^arg1\.name,{COVC}@Some\.0\.0,{COVC}@Some\.0\.1\),Name::base_name\(arg2\)\)|eq:Name\(Name::base_name\(arg2\),dnssec::nsec_closest_encloser\(\^arg1\.name,{COVC}@Some\.0\.0,{COVC}@Some\.0\.1\)\)', r_[0].term)),
+                     ce.path, 'ret', 'closest-encloser(qname, covering NSEC)==parent(expanded wildcard)', '; '.join(x.term[:200] for x in r_))
+        wn = [s for s in sec if s not in direct + nx + wx + ent]
         cx.guard('C08.G1', wn, {
             'no-direct-match': rf'^!ok\({DIRECT}\)$',
             'qname-covered': rf'^ok\({COVQ}\)$',
@@ -115,14 +134,39 @@ def run(cx):
     c = cx.fn('C08.G2', N + 'find_nsec_covering_record::{closure@find#0}')
     if c:
         t = cx.true_returns(c)
-        cx.guard('C08.G2', t, {
-            'owner<name': r'^lt:Name\(arg2\.0,\^arg2\)$',
-            'name<next or next==soa': r'^lt:Name\(\^arg2,NSEC::next_domain_name\(arg2\.1\)\)$|^eq:Option\(Option::Some\(NSEC::next_domain_name\(arg2\.1\)\),\^arg1\)$'}, fn=c)
-        cx.check('C08.G2', len(t) == 2, c.path, 'ret', 'true-return-count', f'{len(t)} true returns, 2 reviewed')
-        # ... and exactly that (the converse clause of the property: the server's own proofs must be accepted): nothing else rejects a record
+        cx.check('C08.G2', len(t) >= 2, c.path, 'ret', 'true-return-count', f'{len(t)} true returns')
+        # covers(name) <=> owner < name && (name < next || next == apex) && the record is not silent about names below its owner:
+        # RFC 6840 4.1 - an NSEC from the parent side of a zone cut (NS set, SOA clear) or at a DNAME owner must not be used to deny
+        # names below its owner.  Exactly that (the converse clause of the property - the server's own proofs must be accepted):
+        # nothing else rejects a record.
+        TS = r'RecordTypeSet::contains\(NSEC::type_set\(arg2\.1\),%s\)'
+        NS_, SOA_, DN_ = TS % 'RecordType::NS', TS % 'RecordType::SOA', TS % r'(const:find_nsec_covering_record::DNAME|RecordType::Unknown\(39\)|const:dnssec::DNAME)'
+        BELOW = r'Name::zone_of\(arg2\.0,\^arg2\)'
+        APEX = r'eq:Option\(Option::Some\(NSEC::next_domain_name\(arg2\.1\)\),\^arg1\)'
         cx.bool_cnf('C08.G2', c, [[r'lt:Name\(arg2\.0,\^arg2\)'],
-                                 [r'lt:Name\(\^arg2,NSEC::next_domain_name\(arg2\.1\)\)', r'eq:Option\(Option::Some\(NSEC::next_domain_name\(arg2\.1\)\),\^arg1\)']],
-                    'covers=owner<name&&(name<next||next==apex)')
+                                 # name < next, or the record is the last of the chain (next == apex: named by the SOA of the response, or
+                                 # recognisable by next <= owner) and the name belongs to that zone
+                                 [r'lt:Name\(\^arg2,NSEC::next_domain_name\(arg2\.1\)\)', APEX, r'le:Name\(NSEC::next_domain_name\(arg2\.1\),arg2\.0\)'],
+                                 [r'lt:Name\(\^arg2,NSEC::next_domain_name\(arg2\.1\)\)', APEX, r'Name::zone_of\(NSEC::next_domain_name\(arg2\.1\),\^arg2\)'],
+                                 ['!' + BELOW, '!' + DN_],
+                                 ['!' + BELOW, '!' + NS_, SOA_]],
+                    'covers=owner<name&&(name<next||last-of-chain)&&!(below-owner&&(delegation||DNAME))')
+    # the closest encloser an NSEC shows: the longer of the ancestors qname shares with the owner and with the next name
+    ne = cx.fn('C08.G2', N + 'nsec_closest_encloser')
+    if ne:
+        r_ = cx.returns(ne, r'.')
+        SH = r'dnssec::nsec_closest_encloser::\{closure@val#0\}\(closure:dnssec::nsec_closest_encloser::\{closure@val#0\},\(%s\)\)'
+        OW, NX = SH % 'arg2', SH % r'NSEC::next_domain_name\(arg3\)'
+        LEN = r'ExactSizeIterator::len\(Name::iter\(%s\)\)'
+        ok_o = [x for x in r_ if re.fullmatch(OW, x.term) and cx.has_guard(x, rf'^le\({LEN % NX},{LEN % OW}\)$')]
+        ok_n = [x for x in r_ if re.fullmatch(NX, x.term) and cx.has_guard(x, rf'^lt\({LEN % OW},{LEN % NX}\)$')]
+        cx.check('C08.G2', len(r_) == 2 and len(ok_o) == 1 and len(ok_n) == 1, ne.path, 'ret', 'closest-encloser=longer-of(shared(owner),shared(next))', '; '.join(x.term[:120] for x in r_))
+    sh = cx.fn('C08.G2', N + 'nsec_closest_encloser::{closure@val#0}')
+    if sh:
+        r_ = cx.returns(sh, r'.')
+        ANC = r'phi\((?:<Name as Clone>::clone\(arg2\)|arg2)\|Name::base_name\(rec\(_\d+\)\)\)'
+        cx.check('C08.G2', len(r_) == 1 and bool(re.fullmatch(ANC, r_[0].term)), sh.path, 'ret', 'shared-ancestor=first-ancestor-of-the-other-name', '; '.join(x.term[:160] for x in r_))
+        cx.guard('C08.G2', r_, {'it-encloses-qname': rf'^Name::zone_of\({ANC},\^arg1\)$'}, expect=1, fn=sh)
 
     # ------------------------------------------------------------ G3 no_closer_matches
     g = cx.fn('C08.G3', N + 'no_closer_matches')
